@@ -48,7 +48,9 @@ def _merge_stats(total, s):
 def scenario_summary(sc):
     ops = []
     for op in sc.get("ops", []):
-        if op["op"] == "env":
+        if op["op"] == "env_transform":
+            ops.append("env_transform:%s(%s)" % (op["how"], op["path"]))
+        elif op["op"] == "env":
             ops.append("env:%s(%s)" % (op.get("label"), op["path"]))
         elif op["op"] == "sync":
             s = "sync[truth=%s,kinds=%s,via=%s]" % (op["truth"], "+".join(sorted(op["targets"])), op.get("via"))
